@@ -72,6 +72,10 @@ CHECKS = {
             "Seeded account multisets per type from the command line, the user configuration, or (--all) a fake server's account-information response with any status mix, x stmt/stmtend x dates x include flags are run through ofxget's real argument parser, merge_config and handlers (modules re-imported per run); the request ofxget prints or POSTs is read by TLC (OFXFile) and each kind's wrappers are compared as a bag (account id, type, bank/broker id, dates as instants, flags) with the selection the specification computes - none missing, duplicated, of another type, or inactive.",
             "Trusted: TLC, the selection reading of the property, the fake server responses (built from TLC's minimal documents). With --all the user configuration lists no accounts (the property is silent on mixing them); one bank id / broker id per response.",
             "DESIGN.md section 6 C19"),
+    "C18": ("TLA+ OFXGetConfig state machine (user file x FI database x OFX Home x defaults): TLC model check of Precedence/Persist/stores-nothing/uid-stable over run histories + TLC-simulated histories replayed on the real ofxget + stateful trace validation of every run",
+            "TLC checks on MC_GetConfig, over all histories of runs, that the reference write rule satisfies Precedence, Persist, DryStoresNothing, NoWriteStoresNothing, UidStable and OtherServersUntouched (and refutes the never-drop rule the library used to have). Behaviours simulated by TLC and seeded random histories (URLs with %, values equal to defaults, lists, booleans, versions; every subset of sources) are replayed on the real argument parser, merge_config, handlers and write_config with modules re-imported per run; the stateful trace specification carries the user file and default CLIENTUID and judges each run's effective settings and the file it leaves.",
+            "Trusted: TLC, the reading of the precedence chain, the independent INI reading of ofxget.cfg, the fakes at OFXClient.post_request / ofxhome.lookup. Account ids containing commas and booleans set back to false are outside what the command line can express. The first --write may introduce the generated default CLIENTUID.",
+            "DESIGN.md section 6 C18"),
 }
 
 PENDING = {}
